@@ -146,7 +146,7 @@ def _mk_class(pattern, three):
 
 
 for _p in patterns(4):
-    ob('registry/class/' + _p, marks=['resolved-after-register'], budget=(60, 200),
+    ob('registry/class/' + _p, marks=['resolved-after-register'], budget=(100, 300),
        bounds='fresh TypeRegistry(cache=True); operation sequence %s (R = register(class in {A, B<A}, '
               'allow_subclasses bool, priority symbolic in -1..1, the callable fresh or the one of the first registration), Q = resolve(class in {A, B, X})); identity of the '
               'resolved function compared with the cache-free reference after every resolve' % _p,
